@@ -197,3 +197,184 @@ Proof. exact into_median_spec. Qed.
 Theorem C07_into_first : forall (V : Type) (hits : list (Z * V)),
   first_of hits = option_map snd (hd_error hits).
 Proof. exact @first_of_spec. Qed.
+
+(* ==== EXTENSION: into_ranges complete, keep_empty everywhere, error outcomes, pairing,
+   labels ============================================================================== *)
+From CNV Require Import Proofs.RangesLib2 Proofs.RangesErrors Proofs.RangesLabels Proofs.RangesInto Proofs.RangesFn.
+From CNV Require Gen.RangeDefaults Gen.FnRanges.
+
+(* INTO, summary_func None: the summary is chosen by the type of the FIRST element of the
+   column -- a column of strings: join_strings; of floats: nanmedian; of integers / booleans:
+   first_of -- and the result is that of the typed model C07_into .. C07_into_first speak about *)
+Theorem C07_into_default_str : forall source dest (col : Z -> string) d,
+  into_ranges_full source dest (fun l => ICStr (col l)) (ICStr d) ISNone =
+  option_map (map (option_map ICStr)) (into_ranges source dest col d join_strings).
+Proof. exact into_full_default_str. Qed.
+
+Theorem C07_into_default_float : forall source dest (col : Z -> option Q) d,
+  into_ranges_full source dest (fun l => ICFloat (col l)) (ICFloat d) ISNone =
+  option_map (map (option_map ICFloat)) (into_ranges source dest col d nanmedian).
+Proof. exact into_full_default_float. Qed.
+
+Theorem C07_into_default_int : forall source dest (col : Z -> Z) d,
+  into_ranges_full source dest (fun l => ICInt (col l)) (ICInt d) ISNone =
+  option_map (map (option_map ICInt)) (into_ranges source dest col d first_of).
+Proof. exact into_full_default_int. Qed.
+
+Theorem C07_into_default_bool : forall source dest (col : Z -> bool) d,
+  into_ranges_full source dest (fun l => ICBool (col l)) (ICBool d) ISNone =
+  option_map (map (option_map ICBool)) (into_ranges source dest col d first_of).
+Proof. exact into_full_default_bool. Qed.
+
+(* a non-callable summary_func: the constant; a callable: itself; a missing column: the default
+   for every range -- whatever the column holds *)
+Theorem C07_into_const : forall source dest (col : Z -> icell) d v,
+  into_ranges_full source dest col d (ISConst v) = into_ranges source dest col d (const_of v).
+Proof. exact into_full_const. Qed.
+
+Theorem C07_into_func : forall source dest (col : Z -> icell) d f,
+  into_ranges_full source dest col d (ISFunc f) = into_ranges source dest col d f.
+Proof. exact into_full_func. Qed.
+
+Theorem C07_into_missing_column : forall source dest (col : Z -> icell) d s,
+  ga_into_ranges false source dest col d s = Some (map (fun _ => Some d) dest).
+Proof. exact ga_into_missing. Qed.
+
+(* exactly one value per query row *)
+Theorem C07_into_one_per_query : forall (V : Type) (source dest : list trow) (col : Z -> V) default f,
+  dest <> [] -> table_ok source -> grouped dest ->
+  exists l, into_ranges source dest col default f = Some l /\ length l = length dest.
+Proof. exact @into_one_per_query. Qed.
+
+(* KEEP_EMPTY on every entry point.  True: exactly one entry per query row, in query order;
+   False: the same entries without the empty selections (none of the remaining ones is empty).
+   intersection passes False and into_ranges True (generated from the source). *)
+Theorem C07_keep_empty_on : forall table other m,
+  table_ok table -> grouped other ->
+  map fst (ga_by_ranges table other m true) = other /\
+  length (iter_slices table other (imode_of m) true) = length other /\
+  length (iter_ranges_of table other m true) = length other.
+Proof. exact keep_empty_on. Qed.
+
+Theorem C07_keep_empty_off : forall table other m,
+  table_ok table -> grouped other ->
+  ga_by_ranges table other m false = filter nonempty_sel (ga_by_ranges table other m true) /\
+  iter_slices table other (imode_of m) false =
+    filter (fun sub => match sub with [] => false | _ => true end) (iter_slices table other (imode_of m) true) /\
+  iter_ranges_of table other m false =
+    filter (fun sub => match sub with [] => false | _ => true end) (iter_ranges_of table other m true) /\
+  Forall (fun x => snd x <> []) (ga_by_ranges table other m false).
+Proof. exact keep_empty_off. Qed.
+
+Theorem C07_keep_empty_fixed :
+  RangeDefaults.intersection_slices_keep_empty = false /\
+  RangeDefaults.intersection_trim_keep_empty = false /\
+  RangeDefaults.into_slices_keep_empty = true /\
+  RangeDefaults.into_slices_mode = "outer"%string.
+Proof. exact fixed_keep_empty_flags. Qed.
+
+(* ERROR OUTCOMES (empty query lists, starts / ends of unequal length): nothing is outside the
+   model.  (1) whenever the index step returns, it returns the error-free model's ranges, so every
+   theorem above applies; (2) on a non-empty table with a bound given, which arguments raise what:
+   the mask path raises TypeError for an empty `starts` with `ends` None and AssertionError for
+   lists of unequal length or no query at all, the binary-search path zips (truncates) and never
+   raises; (3) in_ranges adds ValueError exactly for "nothing to concatenate": the binary-search
+   path with no query at all; (4) non-empty lists of equal length never raise. *)
+Theorem C07_errors_ok : forall t s e m r, idx_ranges_e t s e m = RqOk r -> idx_ranges t s e m = r.
+Proof. exact idx_ranges_e_ok. Qed.
+
+Theorem C07_errors_cases : forall t s e m,
+  t <> [] -> ~ (s = None /\ e = None) ->
+  idx_ranges_e t s e m =
+  if is_monotonic (map r_hi t) then RqOk (irange_simple t s e m)
+  else match given s, e with
+       | None, None => RqRaises "TypeError"
+       | None, Some el =>
+           match el with
+           | [] => RqRaises "AssertionError"
+           | _ => RqOk (irange_nested t (repeat 0 (length el)) (map Some el) m)
+           end
+       | Some ss, _ =>
+           match given e with
+           | None => RqOk (irange_nested t ss (repeat None (length ss)) m)
+           | Some es => if Nat.eqb (length ss) (length es)
+                        then RqOk (irange_nested t ss (map Some es) m)
+                        else RqRaises "AssertionError"
+           end
+       end.
+Proof. exact idx_ranges_e_cases. Qed.
+
+Theorem C07_in_ranges_outcome : forall t chrom s e m,
+  in_ranges_e t chrom s e m =
+  match idx_ranges_e (chrom_filter chrom t) s e (imode_of m) with
+  | RqRaises x => RqRaises x
+  | RqOk _ => match in_ranges t chrom s e m with Some l => RqOk l | None => RqRaises "ValueError" end
+  end.
+Proof. exact in_ranges_e_eq. Qed.
+
+Theorem C07_in_ranges_valueerror : forall t chrom s e m,
+  in_ranges_e t chrom s e m = RqRaises "ValueError" <->
+  chrom_filter chrom t <> [] /\ is_monotonic (map r_hi (chrom_filter chrom t)) = true /\
+  given s = None /\ e = Some [].
+Proof. exact in_ranges_e_valueerror. Qed.
+
+Theorem C07_in_ranges_no_error : forall t chrom (qs : list (Z * Z)) m,
+  sorted_lo (chrom_filter chrom t) -> Forall valid_row (chrom_filter chrom t) -> qs <> [] ->
+  in_ranges_e t chrom (Some (map fst qs)) (Some (map snd qs)) m =
+  RqOk (concat (map (fun q => select_spec m (fst q) (snd q) (chrom_filter chrom t)) qs)).
+Proof. exact in_ranges_e_spec. Qed.
+
+Example C07_error_examples :
+  let nested := [("a"%string, mkRow 0 0 10); ("a"%string, mkRow 1 1 2); ("a"%string, mkRow 2 3 4)] in
+  let simple := [("a"%string, mkRow 0 0 3); ("a"%string, mkRow 1 2 5)] in
+  in_ranges_e nested (Some "a"%string) (Some []) None QOuter = RqRaises "TypeError" /\
+  in_ranges_e nested (Some "a"%string) (Some [1; 2]) (Some [4]) QOuter = RqRaises "AssertionError" /\
+  in_ranges_e nested (Some "a"%string) (Some []) (Some []) QInner = RqRaises "AssertionError" /\
+  in_ranges_e simple (Some "a"%string) (Some []) (Some []) QTrim = RqRaises "ValueError" /\
+  in_ranges_e simple (Some "a"%string) (Some [1; 2]) (Some [4]) QTrim = RqOk [mkRow 0 1 3; mkRow 1 2 4].
+Proof. vm_compute. repeat split; reflexivity. Qed.
+
+(* CHROMOSOME PAIRING: the single-chromosome shortcut of by_shared_chroms is the general rule;
+   one group per chromosome of the first table that the second has too (with keep_empty: per
+   chromosome of the first table), in order of first appearance, carrying ALL rows of that
+   chromosome of either table *)
+Theorem C07_shared_chroms : forall table other ke,
+  by_shared_chroms table other ke = shared_groups table other ke /\
+  map (fun g => fst (fst g)) (shared_groups table other ke) =
+    filter (fun c => has_chrom c other || ke) (chroms table) /\
+  Forall (fun g => let '(c, tr, o) := g in
+            tr = of_chrom c table /\
+            o = (if has_chrom c other then Some (of_chrom c other) else None))
+         (shared_groups table other ke).
+Proof. exact shared_chroms_all. Qed.
+
+(* LABELS: iter_slices yields index labels.  With unique labels, the rows found under the labels
+   of each slice (table.loc[labels], column[labels]) are exactly the slice's rows, and
+   table.loc[np.concatenate(slices)] is the concatenation of the slices (intersection); with the
+   default labels 0..n-1 a label lookup is the positional lookup; with other labels it is NOT
+   (rows_loc_not_iloc: a table that lost its first row) *)
+Theorem C07_labels : forall table other im ke,
+  table_ok table -> grouped other -> NoDup (map r_id (map snd table)) ->
+  Forall (fun sub => rows_loc (map snd table) (map r_id sub) = sub) (iter_slices table other im ke) /\
+  rows_loc (map snd table) (concat (iter_slice_labels table other im ke)) =
+    concat (iter_slices table other im ke).
+Proof. exact iter_slices_loc. Qed.
+
+Theorem C07_labels_default : forall (t : list row) (ls : list Z),
+  (forall k r, nth_error t k = Some r -> r_id r = Z.of_nat k) ->
+  rows_loc t ls = rows_iloc t ls.
+Proof. exact rows_loc_default. Qed.
+
+Theorem C07_labels_unique : forall (t sub : list row),
+  NoDup (map r_id t) -> (forall r, In r sub -> In r t) -> rows_loc t (map r_id sub) = sub.
+Proof. exact rows_loc_unique. Qed.
+
+(* SOURCE TIE (tools/fnspecs/intervals.py -> Gen/FnRanges.v): the two conditional clips of
+   iter_ranges(mode="trim"), tests and clipped columns taken from the source text, are the model's
+   trim_rows: `if start_val:` / `if end_val:` are truthiness tests *)
+Theorem C07_source_trim : forall (dummy sv ev : Z) (rows : list row),
+  trim_rows (Some sv) (Some ev) rows =
+  map (fun r => mkRow (r_id r)
+                      (fst (Gen.FnRanges.fn_trim_row dummy (r_lo r) (r_hi r) sv ev))
+                      (snd (Gen.FnRanges.fn_trim_row dummy (r_lo r) (r_hi r) sv ev))) rows.
+Proof. exact fn_trim_rows_eq. Qed.
